@@ -9,7 +9,7 @@ EXHAUSTIVE = True
 CHUNK = 1
 RULE = ("complete product: 17 branch mnemonics x every byte distance -300..+300 x 8 target spellings (.+-n octal, forward/backward label "
         "with a .blkb filler, label+-n, local label n / n:, decimal .+n., <.+n>, (.+n)); sob x 8 registers x every distance -140..+6 x the "
-        "same spellings; PC-relative operands in 7 placements x 13 targets x 4 link bases decoded by the independent decoder, and behind 12 first operands that take no operand word (pc, (pc), @pc, -(pc), @-(pc), sp, autoincrement/decrement forms) x 3 mnemonics; the same operand kinds inside an included file aiming at the including file (include at 4 offsets, 3 link regimes) and inside an unrolled '.repeat' body aiming at labels outside it (1-6 iterations). Accepted "
+        "same spellings; PC-relative operands in 7 placements x 13 targets x 4 link bases and without any '.link' decoded by the independent decoder; branches and sob to constant addresses (symbol, symbol chain) under {no base, base last, base first}; and behind 12 first operands that take no operand word (pc, (pc), @pc, -(pc), @-(pc), sp, autoincrement/decrement forms) x 3 mnemonics; the same operand kinds inside an included file aiming at the including file (include at 4 offsets, 3 link regimes) and inside an unrolled '.repeat' body aiming at labels outside it (1-6 iterations). Accepted "
         "<=> distance even and inside the field's reach; accepted cases are batched and compared with the reference encoding, refused "
         "cases run alone and must fail with an error. Non-trivial = distinct (mnemonic, spelling, distance) or (placement, target, base)")
 ASSUMPTIONS = ["reference opcodes and decoder from pdpmc/ref/isa.py", "which error kind is reported (out-of-bounds or odd) is not demanded"]
@@ -73,8 +73,9 @@ def cases(tier):
     for reg in range(8):
         for sp in SPELL:
             yield {"k": "sob", "reg": reg, "sp": sp}
-    for base in BASES:
-        yield {"k": "rel", "base": base}
+    for base in BASES + [None]:
+        yield {"k": "rel", "base": base}     # None: no '.link' at all (the default base is applied at the end)
+    yield {"k": "const-target"}
     yield {"k": "include"}
     yield {"k": "repeat"}
     yield {"k": "literal-text"}
@@ -151,6 +152,28 @@ def check(case, r, tier):
         reg = case["reg"]
         run_family(r, "sob r%d," % reg, lambda d: 0o77000 | (reg << 6) | (-d // 2), lambda d: d % 2 == 0 and -126 <= d <= 0,
                    range(-140, 7), case["sp"], "sob r%d" % reg)
+    elif k == "const-target":
+        # targets that are plain numbers (or symbols assigned plain numbers) while the link base is not yet known: default base,
+        # base set by a '.link' at the end, base set first (control)
+        for reg in ("none", "last", "first"):
+            base = 0o1000 if reg == "none" else 0o3000
+            pre = ".link %o\n" % base if reg == "first" else ""
+            post = ".link %o\n" % base if reg == "last" else ""
+            for d in (-6, -2, 0, 2, 10, 0o376, -0o400):
+                tgt = base + 4 + 2 + d       # the branch stands at base+4
+                for form, defs in (("ka", "ka = %o\n" % tgt),   # (a bare number after a branch mnemonic is a local label, not an address)
+                                    ("kb", "kb = kc + 2\nkc = %o\n" % (tgt - 2))):
+                    for mn, word in (("br", 0o400 | ((d // 2) & 0xFF)), ("bne", 0o1000 | ((d // 2) & 0xFF))) + ((("sob r1,", 0o77100 | (-d // 2)),) if -126 <= d <= 0 else ()):
+                        for defs_first in (True, False):
+                            text = pre + (defs if defs_first else "") + "nop\nnop\n%s %s\nnop\n" % (mn, form) + ("" if defs_first else defs) + post
+                            want = b"\xa0\x00\xa0\x00" + bytes([word & 255, word >> 8]) + b"\xa0\x00"
+                            out = driver.assemble([("c.mac", text)])
+                            good = out.status == "ok" and out.base == base and out.code == want
+                            r.ran("ok" if good else out.cls(), key=("const-target", reg, d, form, mn, defs_first))
+                            if not good:
+                                r.violation("const-target:%s:%s" % (reg, "rejected" if out.status == "fail" else "wrong" if out.status == "ok" else out.cls()),
+                                            "%s to the constant address %o from %o" % (mn, tgt, base + 4), {"kind": "single", "text": text, "expected_hex": want.hex()}, want.hex(), out.brief())
+        return
     elif k == "include":
         # branches and PC-relative operands inside an included file whose targets lie in the including file (and the
         # other way round), the include at several offsets, the base set first / last / defaulted
